@@ -67,7 +67,7 @@ def main():
             if k.startswith("__") and k.endswith("__"):
                 continue
             e = enc(v)
-            g[k] = e if e is not None else {"k": "other", "v": type(v).__module__ + "." + type(v).__qualname__}
+            g[k] = e if e is not None else {"k": "other", "v": type(v).__module__ + "." + type(v).__qualname__, "oid": _oid(v)}
         out["modules"][mn] = g
         for k, v in vars(mod).items():
             if inspect.isclass(v) and v.__module__ == mn:
@@ -122,6 +122,18 @@ def special():
     return sp
 
 
+_OIDS = {}
+_KEEP = []
+
+
+def _oid(v):
+    """stable small number per distinct object (sentinels such as Transport._ENCRYPT / _DECRYPT are compared with `is`)"""
+    if id(v) not in _OIDS:
+        _OIDS[id(v)] = 1000 + len(_OIDS)
+        _KEEP.append(v)
+    return _OIDS[id(v)]
+
+
 def register_class(out, cls):
     qn = cls.__module__ + "." + cls.__qualname__
     if qn in out["classes"]:
@@ -139,7 +151,7 @@ def register_class(out, cls):
             e = {"k": "property", "v": (v.fget.__module__ + "." + v.fget.__qualname__) if v.fget else None}
         else:
             e = enc(v)
-        attrs[k] = e if e is not None else {"k": "other", "v": type(v).__qualname__}
+        attrs[k] = e if e is not None else {"k": "other", "v": type(v).__qualname__, "oid": _oid(v)}
         if inspect.isclass(v) and v.__module__ == cls.__module__:
             register_class(out, v)
     out["classes"][qn] = {"mro": [c.__module__ + "." + c.__qualname__ for c in cls.__mro__], "attrs": attrs}
